@@ -73,3 +73,31 @@ import "grog/internal/model"
 func lemma_deps_rdeps_inverse(g *DirectedTargetGraph, n, d model.BuildNode) ([]model.BuildNode, []model.BuildNode) {
 	return g.GetDependencies(n), g.GetDependants(d)
 }
+
+// C11: AddEdge rejects self-loops and unknown endpoints and otherwise appends to both edge maps in lock-step.
+//@ func (*DirectedTargetGraph).hasNode(g, node) (r)
+//@   pure
+//@   ensures [spec] r <==> node != nil && g.nodes[labelOf(node)] != nil
+
+//@ func (*DirectedTargetGraph).AddEdge(g, from, to) (err)
+//@   requires [nodes] (from == nil || isNode(from)) && (to == nil || isNode(to))
+//@   requires [maps_allocated] g.outEdges != nil && g.inEdges != nil && g.outEdges != g.inEdges
+//@   modifies contents(g.outEdges), contents(g.inEdges)
+//@   ensures [self_loop_rejected] from == to ==> err != nil
+//@   ensures [unknown_endpoint_rejected] (from == nil || to == nil || g.nodes[labelOf(from)] == nil || g.nodes[labelOf(to)] == nil) ==> err != nil
+//@   ensures [accepted_otherwise] from != to && from != nil && to != nil && g.nodes[labelOf(from)] != nil && g.nodes[labelOf(to)] != nil ==> err == nil
+//@   ensures [error_changes_nothing] err != nil ==> vals(g.outEdges) == old(vals(g.outEdges)) && vals(g.inEdges) == old(vals(g.inEdges)) && keys(g.outEdges) == old(keys(g.outEdges)) && keys(g.inEdges) == old(keys(g.inEdges))
+//@   ensures [lock_step] err == nil ==> g.outEdges[labelOf(from)] == appendOne(old(g.outEdges[labelOf(from)]), to) && g.inEdges[labelOf(to)] == appendOne(old(g.inEdges[labelOf(to)]), from)
+//@   ensures [others_untouched] err == nil ==> (forall k label.TargetLabel :: {g.outEdges[k]} k != labelOf(from) ==> g.outEdges[k] == old(g.outEdges[k])) &&
+//@        (forall k label.TargetLabel :: {g.inEdges[k]} k != labelOf(to) ==> g.inEdges[k] == old(g.inEdges[k]))
+
+//@ func NewDirectedGraphFromMap(targetMap) (g)
+//@   pure
+//@   allocates g
+//@   ensures [fresh_maps] g != nil && g.nodes == targetMap && g.outEdges != nil && g.inEdges != nil && g.outEdges != g.inEdges
+
+// FindCycle (closure-recursive three-colour DFS) is outside the executor's reach; its contract is assumed here and
+// exercised by a bounded stand-in (see DESIGN, C11).
+//@ func (*DirectedTargetGraph).FindCycle(g) (cycle, found)
+//@   trusted
+//@   pure
